@@ -59,8 +59,15 @@ func Generate(r *rng.R, tier string, n int, emit func(*common.Case)) {
 		cr := rng.New(sub)
 		// every sixth case or so: a history around `add -configfile` (r5_c02.go); drawn from a fork of
 		// the case seed so that the other cases stay what they were
+		// one history in four is executed by the real binary cmd/layercake (lcw/cli.go)
+		cli := 0
+		if xr := rng.New(sub ^ 0xc11c11c11); xr.Chance(1, 4) {
+			cli = 1 + xr.Intn(6)
+		}
 		if tr := rng.New(sub ^ 0x5c02); tr.Chance(1, 6) {
-			c, err := run(templateHistory(tr))
+			th := templateHistory(tr)
+			th.CLI = cli
+			c, err := run(th)
 			if err != nil {
 				panic(err)
 			}
@@ -120,6 +127,7 @@ func Generate(r *rng.R, tier string, n int, emit func(*common.Case)) {
 		if k := len(in.Steps); k == 0 || in.Steps[k-1].Cmd.Kind != "list" {
 			in.Steps = append(in.Steps, lcw.StepIn{Cmd: lcw.Cmd{Kind: "list"}})
 		}
+		in.CLI = cli
 		c, err := run(in)
 		if err != nil {
 			panic(err)
